@@ -54,7 +54,8 @@ class Tonality:
         return cls(tone, mode)
 
     def __hash__(self):
-        return hash(self.__repr__())
+        normalized = Tonality(0) + self
+        return hash((normalized.degree, normalized.mode, normalized.octave))
 
 
     def has_tag(self, tag):
